@@ -55,7 +55,7 @@ theorem toRows_inj {A B : List (List Nat)} (h : toRows A = toRows B) : A = B := 
 theorem toRows_nodup {A : List (List Nat)} (h : A.Nodup) : (toRows A).Nodup :=
   List.Nodup.map (fun a b hab => toRow_inj.1 hab) h
 
-theorem firstOccIdx_of_nodup (A : List Row) (h : A.Nodup) : firstOccIdx A = List.range A.length := by
+theorem firstOccIdx_of_nodup_se (A : List Row) (h : A.Nodup) : firstOccIdx A = List.range A.length := by
   unfold firstOccIdx
   rw [List.filter_eq_self]
   intro k hk
@@ -70,7 +70,7 @@ theorem firstOccIdx_of_nodup (A : List Row) (h : A.Nodup) : firstOccIdx A = List
 
 theorem dedupRows_of_nodup (A : List Row) (h : A.Nodup) : dedupRows A = A := by
   unfold dedupRows
-  rw [firstOccIdx_of_nodup A h]
+  rw [firstOccIdx_of_nodup_se A h]
   apply List.ext_getElem
   · simp
   · intro n h1 h2
@@ -93,7 +93,7 @@ theorem map_filter_range_getD {β : Type} (l : List β) (d : β) (p : β → Boo
 theorem diffRows_eq (A B : List (List Nat)) (hA : A.Nodup) :
     diffRows A B = A.filter (fun r => !B.contains r) := by
   unfold diffRows rowsAt
-  rw [setdiff_spec, firstOccIdx_of_nodup _ (toRows_nodup hA)]
+  rw [setdiff_spec, firstOccIdx_of_nodup_se _ (toRows_nodup hA)]
   have hl : (toRows A).length = A.length := by simp [toRows]
   rw [hl]
   have : (List.range A.length).filter (fun k => !(toRows B).contains ((toRows A).getD k []))
